@@ -5,15 +5,13 @@ import Httpcache.Proofs.Backend
    hence every index reachable in any history is bounded by the number of distinct variants. -/
 namespace Httpcache
 
-/-- what identifies a reference inside an index -/
-def variantOf (r : Ref) : Str × Str × List (Str × Str) := (r.id, r.vary, r.resolved)
+/-- what identifies a reference inside an index: the identifier of the stored response and the nominated fields with
+    their values — not the spelling of the Vary value -/
+def variantOf (r : Ref) : Str × List (Str × Str) := (r.id, r.resolved)
 
 theorem sameVariant_iff (a b : Ref) : sameVariant a b = true ↔ variantOf a = variantOf b := by
   unfold sameVariant variantOf
   simp only [Bool.and_eq_true, decide_eq_true_eq, Prod.mk.injEq]
-  constructor
-  · rintro ⟨⟨h1, h2⟩, h3⟩; exact ⟨h1, h2, h3⟩
-  · rintro ⟨h1, h2, h3⟩; exact ⟨⟨h1, h2⟩, h3⟩
 
 /-- filtering an indexed list by "this position, or the predicate": beyond the position only the predicate counts -/
 theorem filter_zipIdx_gt {α} (q : α → Bool) (idx : Nat) : ∀ (l : List α) (k : Nat), idx < k →
@@ -114,7 +112,7 @@ theorem store_keeps_variants_distinct (refs : List Ref) (ri : Option Nat) (ref :
 /-- the size of an index is bounded by the number of distinct variants that can occur: if every
     reference describes a variant of the finite list `T`, the index has at most `T.length` references —
     independent of how many requests were made -/
-theorem index_size_bounded (T : List (Str × Str × List (Str × Str))) (refs : List Ref)
+theorem index_size_bounded (T : List (Str × List (Str × Str))) (refs : List Ref)
     (hnd : (refs.map variantOf).Nodup) (hT : ∀ r ∈ refs, variantOf r ∈ T) : refs.length ≤ T.length := by
   have := List.Nodup.length_le_of_subset hnd (by
     intro v hv
@@ -125,13 +123,13 @@ theorem index_size_bounded (T : List (Str × Str × List (Str × Str))) (refs : 
 /-- the indexes a URI can have in ANY history of exchanges whose stored variants are drawn from `T`:
     empty at first and after an invalidation, re-read in any order (VaryHeadersMatch sorts what it
     read), and rewritten by StoreResponse at whatever position it was given -/
-inductive ReachableIndex (T : List (Str × Str × List (Str × Str))) : List Ref → Prop where
+inductive ReachableIndex (T : List (Str × List (Str × Str))) : List Ref → Prop where
   | empty : ReachableIndex T []
   | reordered {a b : List Ref} : ReachableIndex T a → a.Perm b → ReachableIndex T b
   | stored {refs : List Ref} (ri : Option Nat) (ref : Ref) : ReachableIndex T refs → variantOf ref ∈ T →
       ReachableIndex T (dedupeRefs (placeRef refs ri ref).1 (placeRef refs ri ref).2 ref)
 
-theorem reachable_inv (T : List (Str × Str × List (Str × Str))) (refs : List Ref) (h : ReachableIndex T refs) :
+theorem reachable_inv (T : List (Str × List (Str × Str))) (refs : List Ref) (h : ReachableIndex T refs) :
     (refs.map variantOf).Nodup ∧ ∀ r ∈ refs, variantOf r ∈ T := by
   induction h with
   | empty => exact ⟨List.nodup_nil, fun _ hr => by cases hr⟩
@@ -146,7 +144,7 @@ theorem reachable_inv (T : List (Str × Str × List (Str × Str))) (refs : List 
 
 /-- C19, index part, for every history: however many requests are made, every index a URI can reach
     holds at most as many references as there are distinct variants -/
-theorem reachable_index_bounded (T : List (Str × Str × List (Str × Str))) (refs : List Ref) (h : ReachableIndex T refs) :
+theorem reachable_index_bounded (T : List (Str × List (Str × Str))) (refs : List Ref) (h : ReachableIndex T refs) :
     refs.length ≤ T.length :=
   let ⟨hnd, hT⟩ := reachable_inv T refs h
   index_size_bounded T refs hnd hT
@@ -402,7 +400,7 @@ theorem named_or_replaced (refs : List Ref) (ri : Option Nat) (ref x : Ref) (hx 
       · have hself := mem_dedupe_self _ _ _ (placeRef_get refs ri ref)
         unfold sameVariant at hd
         simp only [Bool.and_eq_true, decide_eq_true_eq] at hd
-        exact hall _ hself hd.1.1.symm
+        exact hall _ hself hd.1.symm
     · exact hp
 
 /-- the clean-up deletes the overwritten reference's response when the index write succeeded and nothing names it -/
